@@ -96,6 +96,10 @@ def gen_value(g, base_shapes):
 def gen_case(g):
     rng = g.rng
     poly = g.poly(maxexp=rng.choice([2, 3, 4]), kind=rng.choice(["int", "int", "int", "float", "complex"]))
+    if rng.random() < 0.05:
+        # the simplest polynomial there is: a bare indeterminate (as numpoly.variable() returns it)
+        poly = {"k": "poly", "names": [rng.choice(["q0", "q1", "q3"])], "exps": [[1]], "coefs": [1],
+                "kind": "int", "shape": [], "via": "attrs"}
     names = poly["names"]
     fam = rng.choice([[(), (3,), (1, 3), (2, 1, 3), (2, 1, 1), (1,), (1, 1)],
                       [(), (2,), (2, 2), (1, 2), (1,), (1, 1)], [()],
@@ -409,6 +413,26 @@ def run_case(case, ctx):
                               rider="carrier:" + label)
                     ctx.violation(f2, f"same integers carried as {label} give a different value: "
                                       f"{cprob[1]}", case)
+    if full_numeric:
+        # what an evaluation returns is a new array of the caller's: overwriting it changes neither
+        # the arguments nor what the next evaluation returns
+        arg_objects = [v for v in list(args) + list(kwargs.values()) if isinstance(v, numpy.ndarray)]
+        arg_copies = [v.copy() for v in arg_objects]
+        res1 = do_call(poly, args, kwargs, case["spelling"])
+        if isinstance(res1, numpy.ndarray) and res1.size and res1.flags.writeable and \
+                res1.dtype.kind in "iufc":
+            ctx.count("results_overwritten")
+            res1[...] = 77
+            changed_args = [i for i, (v, c) in enumerate(zip(arg_objects, arg_copies))
+                            if not numpy.array_equal(v, c)]
+            res2 = do_call(poly, args, kwargs, case["spelling"])
+            aprob = O.mismatch(res2, expected, rtol=rtol, atol=atol)
+            if changed_args or aprob is not None:
+                ctx.violation(dict(facts, rider="overwrite_result", failure="aliased_result"),
+                              f"after writing into the array an evaluation returned: argument arrays "
+                              f"changed {changed_args}; next evaluation "
+                              f"{aprob[1] if aprob else 'unchanged'}", case)
+                return
     if full_numeric and pspec["kind"] in ("int", "float") and not pspec.get("dtype"):
         # the polynomial is changed in place (every coefficient doubled through the raw view)
         # after it was evaluated: the next evaluation sees the new coefficients
